@@ -334,6 +334,13 @@ fn cmd_eval(args: &[String]) {
             } else {
                 "num"
             };
+            // a token is a distinct value of the scalar type: more than 200 data cells are not tokenised (an 8-bit
+            // type does not even have that many values); decided before drawing any value
+            let data_cells: usize =
+                arg_leaves.iter().filter(|t| t.get_scalar_type() != BIT).map(|t| num_el(t)).sum();
+            if mode == "tok" && data_cells > 200 {
+                continue;
+            }
             for vi in 0..nsets {
                 // ---- argument values
                 let mut tok_of: HashMap<(String, u128), u64> = HashMap::new();
